@@ -1,4 +1,5 @@
 import SpdxVerif.Props.C14Cost
+import SpdxVerif.Props.C14Poly
 import SpdxVerif.Props.C14
 #print axioms Spdx.C14.expandTerm_length
 #print axioms Spdx.C14.expand_length
@@ -11,3 +12,8 @@ import SpdxVerif.Props.C14
 #print axioms Spdx.C14.slots_le
 #print axioms Spdx.C14.cost_inputs_bounded
 #print axioms Spdx.C14.and_only_linear
+#print axioms Spdx.C14.alts_le_pow_rank
+#print axioms Spdx.C14.orRank_dnfShaped
+#print axioms Spdx.C14.orRank_andOfOrs
+#print axioms Spdx.C14.cost_polynomial_in_rank
+#print axioms Spdx.C14.dnf_shaped_quadratic
